@@ -389,6 +389,42 @@ def run_case(case, ctx):
     if w:
         w.update({"pts": pts, "ms": list(ms), "order": order})
         return violated(w, sig, nontrivial, cls)
+    # call history: the fixes are moved and re-timed, then both features are computed again on the same
+    # track object -- they must follow the definitions for the *current* positions and timestamps
+    # (the cached feature columns are deleted before recomputing, see below)
+    from tracklib.core.obs_time import ObsTime  # noqa: F401
+    ms2 = [ms[0] + 3 * (m - ms[0]) + (7 * i if (m - ms[0]) else 0) for i, m in enumerate(ms)]
+    if all(ms2[i] >= ms2[i - 1] for i in range(1, n)) and \
+            all((ms2[i] == ms2[i - 1]) == (ms[i] == ms[i - 1]) for i in range(1, n)):
+        for i in range(n):
+            o = tr.getObs(i)
+            o.position.setX(2.0 * pts[i][0] + pts[i][1] + 1.0)
+            o.position.setY(pts[i][1] - 0.5 * pts[i][0] - 3.0)
+            o.timestamp = gen.obstime_from_ms(ms2[i])
+        snap2 = _snapshot(tr)
+        P2 = list(zip(snap2["x"], snap2["y"]))
+        if [gen.ms_from_fields(*f) for f in snap2["t"]] == list(ms2):
+            ctx.monitor("recompute_after_edit")
+            # computeAbsCurv deliberately reuses an existing 'abs_curv' column (it is a cached feature), so
+            # the stale columns are deleted first: what is demanded is only that a *fresh* computation
+            # follows the definitions for the current geometry
+            for name in ("abs_curv", "speed"):
+                if name in tr.getListAnalyticalFeatures():
+                    tr.removeAnalyticalFeature(name)
+            r = M.call(computeAbsCurv, tr)
+            f = M.call(tr.getAnalyticalFeature, "abs_curv")
+            w = ({"what": "computeAbsCurv raised after the fixes were moved", "raised": r} if M.is_raised(r) else None) \
+                or _check_abs_curv(f, P2, ctx, "feature (recomputed after the fixes were moved)") \
+                or _check_abs_curv(r, P2, ctx, "return value (recomputed after the fixes were moved)")
+            if not w:
+                r = M.call(tr.estimate_speed)
+                f = M.call(tr.getAnalyticalFeature, "speed")
+                w = ({"what": "estimate_speed raised after the fixes were moved", "raised": r} if M.is_raised(r) else None) \
+                    or _check_speed(f, P2, ms2, ctx, "feature (recomputed after the fixes were moved)")
+            if w:
+                w.update({"pts": pts, "ms": list(ms), "order": order, "moved_to": P2, "retimed_to": ms2})
+                return violated(w, sig, nontrivial, cls + ["recompute_after_edit"])
+            cls.append("recompute_after_edit")
     return held(sig, nontrivial, cls)
 
 
